@@ -33,6 +33,7 @@ func init() {
 			{"C18-R8", "every connected stream is told about every secret event", c18r8},
 			{"C18-R9", "a connection field is not left closed", c18r9},
 			{"C18-R10", "a failed watch is forgotten so that it is retried", c18r10},
+			{"C18-R11", "a key pair read from files is served only after these very bytes were checked", c18r11},
 		},
 	})
 }
@@ -541,4 +542,85 @@ func c18r10(c *Ctx) {
 	}
 	c.Check("watch registrations found", token.NoPos, n >= 2, "fewer fileCerts insertions followed by a watcher addition than confirmed by hand (file and symlink watchers)")
 	c.Floor(3)
+}
+
+// C18-R11: the key pair read from files is served only after THESE bytes were checked against each other. A secret item
+// whose private key was read from a file (file-mounted certificates, file-cert: resources) is written by another process,
+// key and certificate in two steps; checking the pair in one read and serving the result of another read lets a rotation
+// slip in between. Wherever a SecretItem gets a PrivateKey that comes from a file read, the very values stored as
+// CertificateChain and PrivateKey are the two arguments of a tls.X509KeyPair call that every path to the construction
+// passes, and the construction lies under the no-error edge of that call.
+func c18r11(c *Ctx) {
+	p := c.P
+	pkgCache := "security/pkg/nodeagent/cache"
+	pkF := p.Field("pkg/security", "SecretItem", "PrivateKey")
+	ccF := p.Field("pkg/security", "SecretItem", "CertificateChain")
+	fromFile := func(v ssa.Value) bool {
+		ex, ok := v.(*ssa.Extract)
+		if !ok {
+			return false
+		}
+		call, ok := ex.Tuple.(*ssa.Call)
+		if !ok {
+			return false
+		}
+		o := calleeObj(call)
+		return o != nil && (strings.Contains(o.Name(), "ReadFile") || strings.Contains(o.Name(), "readFile"))
+	}
+	n := 0
+	for _, fn := range p.AllFuncs {
+		if funcPkgPath(fn) != istioMod+"/"+pkgCache || strings.HasSuffix(p.Fset.Position(fn.Pos()).Filename, "_test.go") || isWrapperFn(fn) {
+			continue
+		}
+		for _, st := range storesTo(fn, pkF) {
+			if !fromFile(st.Val) {
+				continue
+			}
+			n++
+			fa := st.Addr.(*ssa.FieldAddr)
+			var chain ssa.Value
+			for _, st2 := range storesTo(fn, ccF) {
+				if fa2, ok := st2.Addr.(*ssa.FieldAddr); ok && fa2.X == fa.X {
+					chain = st2.Val
+				}
+			}
+			var check *ssa.Call
+			eachInstr(fn, func(ins ssa.Instruction) {
+				call, ok := ins.(*ssa.Call)
+				if !ok {
+					return
+				}
+				o := calleeObj(call)
+				if o == nil || o.Pkg() == nil || o.Pkg().Path() != "crypto/tls" || o.Name() != "X509KeyPair" || len(call.Call.Args) != 2 {
+					return
+				}
+				if chain != nil && call.Call.Args[0] == chain && call.Call.Args[1] == st.Val {
+					check = call
+				}
+			})
+			name := "a key pair read from files is served only after these bytes were checked: " + stableFnName(fn)
+			msg := "this function builds a SecretItem whose private key was read from a file without having passed the very bytes it serves (certificate chain and key) through tls.X509KeyPair: a pair that was validated in a separate read is not the pair that is returned, and a non-atomic rotation on disk (new key written, new certificate not yet) that lands in between is handed to Envoy as a private key that does not match its certificate"
+			if check == nil {
+				c.Check(name, st.Pos(), false, msg)
+				continue
+			}
+			okNil := false
+			for _, i := range allIfs(fn) {
+				if x, eq, ok := nilCmp(i.Cond); ok {
+					if ex, isEx := x.(*ssa.Extract); isEx && ex.Tuple == ssa.Value(check) && ex.Index == 1 {
+						idx := 1
+						if eq {
+							idx = 0
+						}
+						if underEdges(fn, st.Block(), []Edge{{i.Block(), idx}}) {
+							okNil = true
+						}
+					}
+				}
+			}
+			c.Check(name, st.Pos(), okNil, msg)
+		}
+	}
+	c.Check("file-backed secret items found", token.NoPos, n >= 1, "no SecretItem whose PrivateKey comes from a file read found in the agent's secret cache")
+	c.Floor(2)
 }
